@@ -511,6 +511,11 @@ def monOp0 (m : Mon) (op : String) (args : List String) (impl : List String) (tr
                      before.any fun (i, _) => !(after.any (·.1 = i)) &&
                        !(m.fwds.any fun f => f.srv = sname && f.slot = i && f.client = k)) then
             "bad C11:identifier-held-by-another-clients-request-or-a-probe-released-by-a-request"
+          -- C05: with RequireMessageAuthenticator on for a UDP/TCP client an Access-Request lacking Message-Authenticator is never
+          -- forwarded; with RequireMessageAuthenticatorProxy one that lacks it and carries Proxy-State
+          else if !fwdToks.isEmpty && codeOf pkt = 1 && (cc.type = 0 || cc.type = 2) && !(attrsOf pkt).any (·.1 = 80) &&
+                  (cc.reqMA || (cc.reqMAProxy && (attrsOf pkt).any (·.1 = 33))) then
+            "bad C05:access-request-without-message-authenticator-forwarded-though-the-client-block-requires-one"
           else if (!fwdToks.isEmpty || qgrew) && !acceptable then "bad C05:unacceptable-request-forwarded-or-answered"
           -- C05: only Access-, Accounting-, Status-Server, Disconnect- and CoA-Requests are ever answered or forwarded
           else if (!fwdToks.isEmpty || qgrew) && ![1, 4, 12, 40, 43].contains (codeOf pkt).toNat then
@@ -882,9 +887,12 @@ def monOp0 (m : Mon) (op : String) (args : List String) (impl : List String) (tr
     (m, match (parse b).find? fun (site, n) => n > ((base.find? (·.1 = site)).map (·.2)).getD 0 with
       | some (site, n) => s!"bad C19:memory-allocated-at-{site}-never-released-after-an-allocation-failed:{n}-blocks-left"
       | none => "ok")
-  | "faultcmp", [a, b] =>
+  | "faultcmp", a :: b :: flag =>
     -- C19: a packet that leaves although an allocation failed is the packet the operation produces, possibly lacking what could
     -- not be allocated - never one carrying something the operation does not produce
+    -- (flag "r": the packet comes from a second copy of the server's reply, handled after the first was dropped - a Tunnel-Password
+    --  is then re-encrypted under another random salt than in the run without failure: judged by C03's verdict, not compared here)
+    let attrsOf := fun (p : Bytes) => if flag == ["r"] then (attrsOf p).filter (·.1 ≠ 69) else attrsOf p
     if a = "-" then (m, "bad C19:request-forwarded-under-allocation-failure-that-the-operation-does-not-forward") else
     match ofHex a, ofHex b with
     | some base, some got =>
